@@ -146,7 +146,9 @@ Definition sem (t : fdt) (c : call) : sresp :=
       if Z.eqb fd AT_FDCWD then SRet (RStat S_IFDIR 0 0 0)        (* FrozenFd's probes of the host /proc *)
       else match tget t fd with
            | None => SRet (RErr EBADF)
-           | Some o => if is_nil path then SRet (RStat (mode_of (FSModel.kind_of s o)) 0 (N.of_nat o) 0)
+           | Some o => if is_nil path then
+                         SRet (RStat (if Nat.leb PB o then (if Nat.leb (S (S PB)) o then S_IFLNK else S_IFDIR)
+                                      else mode_of (FSModel.kind_of s o)) 0 (N.of_nat o) 0)
                        else if Nat.eqb o PB && beq path (b "thread-self") then SRet (RStat S_IFLNK 0 0 0)
                        else SRet (RErr ENOSYS)
            end
@@ -232,6 +234,14 @@ Definition tracked_call (t : fdt) (c : call) : bool :=
   | _ => false
   end.
 
+Definition is_procfs_ctor (c : call) : bool :=
+  match c with
+  | Fsmount _ _ _ => true
+  | OpenTree fd path _ => Z.eqb fd AT_FDCWD && beq path (b "/proc")
+  | Openat fd path _ _ => Z.eqb fd AT_FDCWD && beq path (b "/proc")
+  | _ => false
+  end.
+
 Definition resp_agrees (model real : resp) : bool :=
   match model, real with
   | RErr a, RErr c => N.eqb a c
@@ -251,7 +261,10 @@ Fixpoint agree_trace (t : fdt) (tr : list (call * resp)) (i compared : N) : N * 
   | (c, r) :: rest =>
       (* a descriptor the real kernel hands out is not in use any more, whatever we thought *)
       let forget t := match r with RFd n => tdel t n | _ => t end in
-      if negb (tracked_call t c) then agree_trace (forget t) rest (i + 1) compared
+      if is_procfs_ctor c then
+        (* a procfs handle being constructed: its descriptor denotes the procfs root from here on *)
+        agree_trace (match r with RFd n => (n, PB) :: tdel t n | _ => t end) rest (i + 1) compared
+      else if negb (tracked_call t c) then agree_trace (forget t) rest (i + 1) compared
       else match sem t c, r with
            | SNew o, RFd n => agree_trace ((n, o) :: tdel t n) rest (i + 1) (compared + 1)
            | SNew _, _ => (i + 1, compared)
